@@ -2,6 +2,7 @@ package types
 
 import (
 	"encoding/json"
+	"math/big"
 	"strconv"
 
 	sdkmath "cosmossdk.io/math"
@@ -74,29 +75,30 @@ func ParseBool(v string) (Bool, error) {
 // ratio: swap rate
 // inputScale: the decimal scale of input amount
 // outputScale: the decimal scale of output amount
+//
+// One input min unit is worth ratio * 10^(outputScale-inputScale) output min units. The
+// output is that value of the input rounded down; the input actually taken is the least
+// amount that is worth the output (rounded up), so the caller never receives more than
+// the taken amount is worth and the rest (the dust) is left with the caller.
 func LossLessSwap(input sdkmath.Int, ratio sdkmath.LegacyDec, inputScale, outputScale uint32) (sdkmath.Int, sdkmath.Int) {
-	inputDec := sdkmath.LegacyNewDecFromInt(input)
-	scaleFactor := int64(inputScale) - int64(outputScale)
-	var scaleMultipler, scaleReverseMultipler sdkmath.LegacyDec
-
-	if scaleFactor >= 0 {
-		scaleMultipler = sdkmath.LegacyNewDecWithPrec(1, scaleFactor)
-		scaleReverseMultipler = sdkmath.LegacyNewDecFromInt(sdkmath.NewIntWithDecimal(1, int(scaleFactor)))
-	} else {
-		scaleMultipler = sdkmath.LegacyNewDecFromInt(sdkmath.NewIntWithDecimal(1, int(-scaleFactor)))
-		scaleReverseMultipler = sdkmath.LegacyNewDecWithPrec(1, -scaleFactor)
+	if !input.IsPositive() || !ratio.IsPositive() {
+		return sdkmath.ZeroInt(), sdkmath.ZeroInt()
 	}
+	// value of one input min unit = num / den
+	num := new(big.Int).Mul(ratio.BigInt(), pow10(outputScale))
+	den := new(big.Int).Mul(pow10(sdkmath.LegacyPrecision), pow10(inputScale))
 
-	// Calculate output
-	outputDec := inputDec.Clone().Mul(scaleMultipler).Mul(ratio)
-	outputInt := outputDec.Clone().TruncateDec()
+	output := new(big.Int).Mul(input.BigInt(), num)
+	output.Quo(output, den)
 
-	// Adjust input if there are decimal places in the output
-	if !outputDec.Equal(outputInt) {
-		outputFrac := outputDec.Clone().Sub(outputInt)
-		inputFrac := outputFrac.Mul(scaleReverseMultipler)
-		input = inputDec.Sub(inputFrac).TruncateInt()
-	}
+	// ceil(output * den / num)
+	taken := new(big.Int).Mul(output, den)
+	taken.Add(taken, new(big.Int).Sub(num, big.NewInt(1)))
+	taken.Quo(taken, num)
 
-	return input, outputInt.TruncateInt()
+	return sdkmath.NewIntFromBigInt(taken), sdkmath.NewIntFromBigInt(output)
+}
+
+func pow10(n uint32) *big.Int {
+	return new(big.Int).Exp(big.NewInt(10), big.NewInt(int64(n)), nil)
 }
